@@ -106,8 +106,36 @@ class Evaluator:
     # --------------------------------------------------------------- entry points
     def call(self, fi: FunctionInfo, args=(), kwargs=None, self_val=None, depth=0, closure=None, cls_val=None):
         kwargs = dict(kwargs or {})
+        # the same function entered again with identical arguments while it is still active: the evaluation is
+        # deterministic, so the code recurses without bound (RecursionError at run time)
+        key = (fi.module, fi.qualname, self._vkey(self_val), tuple(self._vkey(a) for a in args),
+               tuple(sorted((k, self._vkey(v)) for k, v in kwargs.items())))
+        stack = self.__dict__.setdefault("_active", [])
+        if stack.count(key) >= 2:
+            raise Raised("RecursionError", msg=f"{fi.qualname} re-enters itself with identical arguments (unbounded recursion)", origin=fi.qualname)
         if depth > MAX_DEPTH:
             raise Unsupported(f"inlining depth exceeded at {fi.qualname}")
+        stack.append(key)
+        try:
+            return self._call(fi, args, kwargs, self_val, depth, closure, cls_val)
+        finally:
+            stack.pop()
+
+    @staticmethod
+    def _vkey(v):
+        if isinstance(v, Num):
+            return ("N", v.expr, v.kind, v.shape)
+        if isinstance(v, StrV):
+            return ("S", v.s)
+        if isinstance(v, BoolV):
+            return ("B", v.b)
+        if isinstance(v, (TupleV, ListV)):
+            return (type(v).__name__, tuple(Evaluator._vkey(x) for x in v.items))
+        if isinstance(v, ExtV):
+            return ("E", v.dotted)
+        return ("id", id(v))
+
+    def _call(self, fi, args, kwargs, self_val, depth, closure, cls_val):
         self.calls_inlined += 1
         self.touched.add(f"{fi.module}:{fi.qualname}")
         mi = self.prog.modules[fi.module]
